@@ -53,6 +53,17 @@ structure EnvSpec (E : Env) : Prop where
   evm     : ∀ m, EvmSpec E.evm m
   handler : ∀ m, HandlerSpec E.handler m
 
+/-- A family of EVM summaries that satisfy `EvmSpec` for every input (used for non-vacuity examples and for the
+counterexample witnesses): after the `CanTransfer` guard the run succeeds, burns `cost` gas (or whatever is left)
+and adds `refundAdd` to the refund counter — e.g. a contract that clears a storage slot is `cost = 5006`,
+`refundAdd = 15000`; `evmPlain` is `cost = 0`, `refundAdd = 0`. -/
+def evmCosting (dest : Addr) (cost refundAdd : Nat) : Evm := fun m w refund gas =>
+  if (w.get m.sender).balance < (m.f.value : Int) then
+    { world := w, refund := refund, gasLeft := gas, vmerr := .insufficientBalance }
+  else
+    let w1 := if m.f.to.isSome then w else w.setNonce m.sender (((w.get m.sender).nonce + 1) % U64)
+    { world := w1.transfer m.sender dest m.f.value, refund := refund + refundAdd, gasLeft := gas - min gas cost, vmerr := .none }
+
 /-- the errors that are raised before anything is touched -/
 def Err.upFront : Err → Bool
   | .sender _ | .nonceTooHigh | .nonceTooLow | .insufficientBalanceForGas | .gasLimitReached => true
